@@ -569,6 +569,8 @@ type ServerHello struct {
 // EncodeHello writes the server hello as a server does for a client that
 // announced clientRev: the optional fields depend on the client's revision.
 func EncodeHello(w *W, h ServerHello, clientRev int) {
+	// a server older than a field does not know it either
+	clientRev = min(clientRev, h.Revision)
 	w.UVarint(0)
 	w.Str(h.Name)
 	w.UVarint(uint64(h.Major))
